@@ -2,6 +2,7 @@ import BlobfinderModel.Properties.C17
 import BlobfinderModel.Properties.C06
 import BlobfinderModel.Model.Fastmatch
 import BlobfinderModel.Proofs.Rigid
+import BlobfinderModel.Proofs.FastExact
 /-!
 # C05 — fast matching keeps inliers, rejects outliers and weak peaks, never raises  (partial)
 
@@ -221,6 +222,321 @@ example :
 /-- non-vacuity: four points of an exact square lattice are all matched -/
 example : fastmatch [⟨(0, 0), 1⟩, ⟨(10, 0), 1⟩, ⟨(0, 10), 1⟩, ⟨(10, 10), 1⟩] (0, 0) (10, 0) (0, 10) 3 (1 / 10) 3
     = .valid (0, 0) (10, 0) (0, 10) [true, true, true, true] [(0, 0), (1, 0), (0, 1), (1, 1)] := by
+  decide +kernel
+
+/-! ### the robustness window, in exact arithmetic
+
+One round of `_match_all` against *any* lattice `(zero, a, b)` with vectors between 60° and 120°
+apart (`4 (a·b)² ≤ ‖a‖²‖b‖²`): a peak displaced by `e` from node `(i, j)` of that lattice is selected
+with indices `(i, j)` as soon as `‖e‖` is small against the tolerance and the cell; a peak half a
+cell away is rejected.  The lattice is the one the round is run against, so `e` contains the noise
+of the peak *and* the error of the start parameters at that node
+(`(z_true - z) + i (a_true - a) + j (b_true - b)`).
+-/
+
+/-- **inliers are kept with their true indices**: `‖e‖ ≤ ε`, `(8/3) ε² < tol²` and
+`(16/3) ε² < min(‖a‖², ‖b‖²)` suffice.  For ε = 0.3 px + start error this is far inside the default
+tolerance of 3 px and the 20 px cells of the statement. -/
+theorem inlier_matched (zero a b e : V2) (i j : ℤ) (tol eps : ℚ) (htol : 0 < tol)
+    (hd : det2 a b ≠ 0) (hang : 4 * dot a b ^ 2 ≤ norm2 a * norm2 b)
+    (he : norm2 e ≤ eps ^ 2) (ha : 16 / 3 * eps ^ 2 < norm2 a) (hb : 16 / 3 * eps ^ 2 < norm2 b)
+    (ht : 8 / 3 * eps ^ 2 < tol ^ 2) :
+    let ij := (getIndices zero a b (vadd (calcCoord zero a b ((i : ℚ), (j : ℚ))) e)).getD (0, 0)
+    isMatched a b tol ij = true ∧ (roundHalfEven ij.1, roundHalfEven ij.2) = (i, j) := by
+  simp only [indices_displaced zero a b e _ _ hd, Option.getD_some]
+  have s1 := index_shift_sq_le a b e hd hang
+  have s2 := index_shift_sq_le' a b e hd hang
+  set di := det2 e b / det2 a b with hdi
+  set dj := det2 a e / det2 a b with hdj
+  have hna := norm2_nonneg a
+  have hnb := norm2_nonneg b
+  -- |di| < 1/2 and |dj| < 1/2
+  have hnap : 0 < norm2 a := lt_of_le_of_lt (by positivity) ha
+  have hnbp : 0 < norm2 b := lt_of_le_of_lt (by positivity) hb
+  have hdi2 : di ^ 2 < (1 / 2) ^ 2 := by
+    by_contra h
+    push Not at h
+    have := mul_le_mul_of_nonneg_right h hna
+    nlinarith
+  have hdj2 : dj ^ 2 < (1 / 2) ^ 2 := by
+    by_contra h
+    push Not at h
+    have := mul_le_mul_of_nonneg_right h hnb
+    nlinarith
+  have hi : |(i : ℚ) + di - i| < 1 / 2 := by
+    rw [add_sub_cancel_left]
+    exact abs_lt_of_sq_lt_sq hdi2 (by norm_num)
+  have hj : |(j : ℚ) + dj - j| < 1 / 2 := by
+    rw [add_sub_cancel_left]
+    exact abs_lt_of_sq_lt_sq hdj2 (by norm_num)
+  have ri := round_near _ _ hi
+  have rj := round_near _ _ hj
+  refine ⟨?_, by rw [ri, rj]⟩
+  unfold isMatched
+  simp only [Bool.and_eq_true, decide_eq_true_eq]
+  refine ⟨le_of_lt htol, ?_⟩
+  have hle := err2_le_unscaled a b ((i : ℚ) + di, (j : ℚ) + dj)
+  simp only [ri, rj, add_sub_cancel_left] at hle
+  nlinarith
+
+/-- a peak whose fractional index along `a` is far from every integer is rejected -/
+theorem far_not_matched_first (a b ij : V2) (tol : ℚ)
+    (h : tol ^ 2 * rmax 1 (rabs ij.1) ≤ (ij.1 - (roundHalfEven ij.1 : ℚ)) ^ 2 * norm2 a) :
+    isMatched a b tol ij = false := by
+  unfold isMatched
+  have m1 := rmax_one_ge (rabs ij.1)
+  have h1 := err2_ge_first a b ij
+  have : tol ^ 2 ≤ (ij.1 - (roundHalfEven ij.1 : ℚ)) ^ 2 * norm2 a / rmax 1 (rabs ij.1) := by
+    rw [le_div_iff₀ (by linarith)]; exact h
+  have h2 : ¬ err2 a b ij < tol * tol := by rw [← sq]; linarith
+  simp [h2]
+
+theorem far_not_matched_second (a b ij : V2) (tol : ℚ)
+    (h : tol ^ 2 * rmax 1 (rabs ij.2) ≤ (ij.2 - (roundHalfEven ij.2 : ℚ)) ^ 2 * norm2 b) :
+    isMatched a b tol ij = false := by
+  unfold isMatched
+  have m1 := rmax_one_ge (rabs ij.2)
+  have h1 := err2_ge_second a b ij
+  have : tol ^ 2 ≤ (ij.2 - (roundHalfEven ij.2 : ℚ)) ^ 2 * norm2 b / rmax 1 (rabs ij.2) := by
+    rw [le_div_iff₀ (by linarith)]; exact h
+  have h2 : ¬ err2 a b ij < tol * tol := by rw [← sq]; linarith
+  simp [h2]
+
+/-- **half-cell outliers are rejected**: a peak displaced by `e` (`‖e‖ ≤ ε`) from the position
+`(i + 1/2, y)` of the lattice the round is run against is not selected when
+`tol² · max(1, |index|) ≤ (1/2 - η)² ‖a‖²`, where `η² ‖a‖² = (4/3) ε²` bounds the index shift caused by `e`.
+The `max(1, |index|)` is the square-root relaxation of the tolerance at high orders: the statement's
+half-cell rejection needs `tol < (1/2 - η) ‖a‖ / sqrt(|index|)`, and the oracle draws its far outliers
+accordingly. -/
+theorem half_cell_rejected (zero a b e : V2) (i : ℤ) (y tol eta : ℚ)
+    (hd : det2 a b ≠ 0) (heta : |det2 e b / det2 a b| ≤ eta) (heta2 : eta ≤ 1 / 2)
+    (hfar : tol ^ 2 * rmax 1 (rabs ((i : ℚ) + 1 / 2 + det2 e b / det2 a b)) ≤ (1 / 2 - eta) ^ 2 * norm2 a) :
+    isMatched a b tol
+      ((getIndices zero a b (vadd (calcCoord zero a b ((i : ℚ) + 1 / 2, y)) e)).getD (0, 0)) = false := by
+  simp only [indices_displaced zero a b e _ _ hd, Option.getD_some]
+  apply far_not_matched_first
+  simp only []
+  have hf := half_cell_far i (det2 e b / det2 a b) eta heta
+  have hna := norm2_nonneg a
+  have h0 : 0 ≤ 1 / 2 - eta := by linarith
+  have hsq : (1 / 2 - eta) ^ 2 ≤
+      ((i : ℚ) + 1 / 2 + det2 e b / det2 a b - (roundHalfEven ((i : ℚ) + 1 / 2 + det2 e b / det2 a b) : ℚ)) ^ 2 := by
+    rw [← sq_abs ((i : ℚ) + 1 / 2 + det2 e b / det2 a b - _)]
+    exact pow_le_pow_left₀ h0 hf 2
+  calc _ ≤ (1 / 2 - eta) ^ 2 * norm2 a := hfar
+    _ ≤ _ := mul_le_mul_of_nonneg_right hsq hna
+
+/-- non-vacuity of the two window theorems: a 20 px square lattice, a peak 0.3 px off node (2, -1) is
+kept for tol = 1; a peak exactly half a cell off along `a` at order 3 is rejected for tol = 3 -/
+example : isMatched (20, 0) (0, 20) 1
+    ((getIndices (50, 50) (20, 0) (0, 20) (vadd (calcCoord (50, 50) (20, 0) (0, 20) (2, -1)) (3 / 10, 0))).getD (0, 0)) = true := by
+  decide +kernel
+example : isMatched (20, 0) (0, 20) 3
+    ((getIndices (50, 50) (20, 0) (0, 20) (vadd (calcCoord (50, 50) (20, 0) (0, 20) (3 + 1 / 2, 1)) (0, 0))).getD (0, 0)) = false := by
+  decide +kernel
+
+/-! ### exact recovery, end to end (both rounds and both fits) -/
+
+/-- **Noise-free lattice peaks are recovered exactly from any start that works at all.**
+True lattice `(z, a, b)`; `node p = some (i, j)` marks the peaks lying exactly on node `(i, j)`; every other
+strong peak is one the true lattice rejects (e.g. a half-cell outlier, `half_cell_rejected`); the start
+`(z0, a0, b0)` is arbitrary except that whatever strong peak round one selects is a node peak with its
+true indices (`inlier_matched` gives the geometric condition), at least `min_match` of them, of rank 3.
+Then the fast match is valid, returns **exactly** the true lattice, selects **exactly** the strong
+node peaks (weak peaks and outliers are rejected, node peaks missed by round one are recovered by
+round two) and assigns their true indices.  Rank 3 of the final selection follows from rank 3 of
+round one (`det_mono_sublist`). -/
+theorem fastmatch_exact_recovery (peaks : List Peak) (z a b z0 a0 b0 : V2) (tol mw : ℚ) (mm : ℤ)
+    (node : Peak → Option (ℤ × ℤ))
+    (hd : det2 a b ≠ 0) (hd0 : det2 a0 b0 ≠ 0) (htol : 0 < tol) (hmw : 0 ≤ mw)
+    (hnode : ∀ p ∈ peaks, ∀ i j, node p = some (i, j) → p.pos = calcCoord z a b ((i : ℚ), (j : ℚ)))
+    (hout : ∀ p ∈ peaks, node p = none → mw ≤ p.elev → isMatched a b tol (ix z a b p) = false)
+    (h1 : ∀ p ∈ peaks, mw ≤ p.elev → isMatched a0 b0 tol (ix z0 a0 b0 p) = true →
+      node p = some (rix z0 a0 b0 p))
+    (hcount : mm ≤ ((peaks.filter (selBy (fun p => Gen.fm_weight_ok p.elev mw) z0 a0 b0 tol)).length : ℤ))
+    (hrank : (normalOf ((peaks.filter (selBy (fun p => Gen.fm_weight_ok p.elev mw) z0 a0 b0 tol)).map
+      fun p => ⟨((rix z0 a0 b0 p).1 : ℚ), ((rix z0 a0 b0 p).2 : ℚ), p.elev, 0⟩)).det ≠ 0) :
+    fastmatch peaks z0 a0 b0 tol mw mm
+      = .valid z a b (peaks.map fun p => Gen.fm_weight_ok p.elev mw && (node p).isSome)
+          ((peaks.filter fun p => Gen.fm_weight_ok p.elev mw && (node p).isSome).map
+            fun p => (node p).getD (0, 0)) := by
+  set W : Peak → Bool := fun p => Gen.fm_weight_ok p.elev mw with hWdef
+  have hW : ∀ p, W p = true ↔ mw ≤ p.elev := fun p => (operators p.elev mw 0 0 0 0).1
+  set S1 := selBy W z0 a0 b0 tol with hS1
+  set T : Peak → Bool := fun p => W p && (node p).isSome with hT
+  -- members of the round-one selection are node peaks with their true indices
+  have hS1mem : ∀ p ∈ peaks.filter S1, p ∈ peaks ∧ mw ≤ p.elev ∧ node p = some (rix z0 a0 b0 p) ∧
+      p.pos = calcCoord z a b (((rix z0 a0 b0 p).1 : ℚ), ((rix z0 a0 b0 p).2 : ℚ)) := by
+    intro p hp
+    obtain ⟨hpp, hs⟩ := List.mem_filter.mp hp
+    rw [hS1] at hs
+    unfold selBy at hs
+    rw [Bool.and_eq_true] at hs
+    have hw := (hW p).mp hs.1
+    have hn := h1 p hpp hw hs.2
+    exact ⟨hpp, hw, hn, hnode p hpp _ _ hn⟩
+  have hw1 : ∀ o ∈ ((peaks.filter S1).map fun p => (⟨((rix z0 a0 b0 p).1 : ℚ), ((rix z0 a0 b0 p).2 : ℚ), p.elev, (0 : ℚ)⟩ : Obs)),
+      0 ≤ o.w := by
+    intro o ho
+    obtain ⟨p, hp, rfl⟩ := List.mem_map.mp ho
+    exact le_trans hmw (hS1mem p hp).2.1
+  have hpos1 : 0 < (normalOf ((peaks.filter S1).map fun p =>
+      (⟨((rix z0 a0 b0 p).1 : ℚ), ((rix z0 a0 b0 p).2 : ℚ), p.elev, (0 : ℚ)⟩ : Obs))).det :=
+    lt_of_le_of_ne (det_nonneg _ hw1) (Ne.symm hrank)
+  -- fit of round one = the true lattice
+  have hfit1 : weightedOptimize peaks (peaks.map S1) ((peaks.filter S1).map (rix z0 a0 b0)) = some (z, a, b) := by
+    unfold weightedOptimize
+    rw [obsFor_eq, obsFor_eq]
+    have hy : solveNormal (normalOf ((peaks.filter S1).map fun p =>
+        (⟨((rix z0 a0 b0 p).1 : ℚ), ((rix z0 a0 b0 p).2 : ℚ), p.elev, p.pos.1⟩ : Obs))) = some (z.1, a.1, b.1) := by
+      apply solve_exact
+      · intro o ho
+        obtain ⟨p, hp, rfl⟩ := List.mem_map.mp ho
+        exact (on_node_resid z a b p _ _ (hS1mem p hp).2.2.2).1
+      · rw [det_indep_t (peaks.filter S1) (fun p => ((rix z0 a0 b0 p).1 : ℚ)) (fun p => ((rix z0 a0 b0 p).2 : ℚ))
+          (fun p => p.elev) (fun p => p.pos.1) (fun _ => 0)]
+        exact ne_of_gt hpos1
+    have hx : solveNormal (normalOf ((peaks.filter S1).map fun p =>
+        (⟨((rix z0 a0 b0 p).1 : ℚ), ((rix z0 a0 b0 p).2 : ℚ), p.elev, p.pos.2⟩ : Obs))) = some (z.2, a.2, b.2) := by
+      apply solve_exact
+      · intro o ho
+        obtain ⟨p, hp, rfl⟩ := List.mem_map.mp ho
+        exact (on_node_resid z a b p _ _ (hS1mem p hp).2.2.2).2
+      · rw [det_indep_t (peaks.filter S1) (fun p => ((rix z0 a0 b0 p).1 : ℚ)) (fun p => ((rix z0 a0 b0 p).2 : ℚ))
+          (fun p => p.elev) (fun p => p.pos.2) (fun _ => 0)]
+        exact ne_of_gt hpos1
+    rw [hy, hx]
+  -- round two, run against the true lattice, selects exactly the strong node peaks
+  have hS2 : ∀ p ∈ peaks, selBy W z a b tol p = T p := by
+    intro p hp
+    show selBy W z a b tol p = (W p && (node p).isSome)
+    unfold selBy
+    cases hn : node p with
+    | none =>
+      simp only [Option.isSome_none, Bool.and_false]
+      cases hwp : W p
+      · rfl
+      · simp only [Bool.true_and]
+        exact hout p hp hn ((hW p).mp hwp)
+    | some ij =>
+      obtain ⟨i, j⟩ := ij
+      simp only [Option.isSome_some, Bool.and_true]
+      rw [(on_node z a b tol htol hd p i j (hnode p hp i j hn)).2.1, Bool.and_true]
+  have hR2 : ∀ p ∈ peaks.filter T, rix z a b p = (node p).getD (0, 0) := by
+    intro p hp
+    obtain ⟨hpp, ht⟩ := List.mem_filter.mp hp
+    rw [hT] at ht
+    simp only [Bool.and_eq_true] at ht
+    obtain ⟨ij, hn⟩ := Option.isSome_iff_exists.mp ht.2
+    obtain ⟨i, j⟩ := ij
+    rw [hn, Option.getD_some]
+    exact (on_node z a b tol htol hd p i j (hnode p hpp i j hn)).2.2
+  have hmap2 : peaks.map (selBy W z a b tol) = peaks.map T := List.map_congr_left hS2
+  have hfil2 : peaks.filter (selBy W z a b tol) = peaks.filter T := List.filter_congr hS2
+  have hidx2 : (peaks.filter T).map (rix z a b) = (peaks.filter T).map fun p => (node p).getD (0, 0) :=
+    List.map_congr_left hR2
+  have hTmem : ∀ p ∈ peaks.filter T, mw ≤ p.elev ∧
+      p.pos = calcCoord z a b ((((node p).getD (0, 0)).1 : ℚ), (((node p).getD (0, 0)).2 : ℚ)) := by
+    intro p hp
+    obtain ⟨hpp, ht⟩ := List.mem_filter.mp hp
+    rw [hT] at ht
+    simp only [Bool.and_eq_true] at ht
+    obtain ⟨ij, hn⟩ := Option.isSome_iff_exists.mp ht.2
+    obtain ⟨i, j⟩ := ij
+    rw [hn, Option.getD_some]
+    exact ⟨(hW p).mp ht.1, hnode p hpp i j hn⟩
+  -- rank of the final selection
+  have hsub : ((peaks.filter S1).map fun p =>
+        (⟨((rix z0 a0 b0 p).1 : ℚ), ((rix z0 a0 b0 p).2 : ℚ), p.elev, (0 : ℚ)⟩ : Obs)).Sublist
+      ((peaks.filter T).map fun p =>
+        (⟨(((node p).getD (0, 0)).1 : ℚ), (((node p).getD (0, 0)).2 : ℚ), p.elev, (0 : ℚ)⟩ : Obs)) := by
+    have e1 : ((peaks.filter S1).map fun p =>
+        (⟨((rix z0 a0 b0 p).1 : ℚ), ((rix z0 a0 b0 p).2 : ℚ), p.elev, (0 : ℚ)⟩ : Obs))
+        = (peaks.filter S1).map fun p =>
+        (⟨(((node p).getD (0, 0)).1 : ℚ), (((node p).getD (0, 0)).2 : ℚ), p.elev, (0 : ℚ)⟩ : Obs) := by
+      apply List.map_congr_left
+      intro p hp
+      rw [(hS1mem p hp).2.2.1, Option.getD_some]
+    rw [e1]
+    apply List.Sublist.map
+    apply filter_sublist_of_imp
+    intro p hp hs
+    have hp' : p ∈ peaks.filter S1 := List.mem_filter.mpr ⟨hp, hs⟩
+    obtain ⟨_, hw, hn, _⟩ := hS1mem p hp'
+    rw [hT]
+    simp only [Bool.and_eq_true]
+    exact ⟨(hW p).mpr hw, by rw [hn]; rfl⟩
+  have hw2 : ∀ o ∈ ((peaks.filter T).map fun p =>
+        (⟨(((node p).getD (0, 0)).1 : ℚ), (((node p).getD (0, 0)).2 : ℚ), p.elev, (0 : ℚ)⟩ : Obs)), 0 ≤ o.w := by
+    intro o ho
+    obtain ⟨p, hp, rfl⟩ := List.mem_map.mp ho
+    exact le_trans hmw (hTmem p hp).1
+  have hpos2 := lt_of_lt_of_le hpos1 (det_mono_sublist hsub hw2)
+  have hfit2 : weightedOptimize peaks (peaks.map T) ((peaks.filter T).map fun p => (node p).getD (0, 0))
+      = some (z, a, b) := by
+    unfold weightedOptimize
+    rw [obsFor_eq, obsFor_eq]
+    have hy : solveNormal (normalOf ((peaks.filter T).map fun p =>
+        (⟨(((node p).getD (0, 0)).1 : ℚ), (((node p).getD (0, 0)).2 : ℚ), p.elev, p.pos.1⟩ : Obs)))
+        = some (z.1, a.1, b.1) := by
+      apply solve_exact
+      · intro o ho
+        obtain ⟨p, hp, rfl⟩ := List.mem_map.mp ho
+        exact (on_node_resid z a b p _ _ (hTmem p hp).2).1
+      · rw [det_indep_t (peaks.filter T) (fun p => (((node p).getD (0, 0)).1 : ℚ))
+          (fun p => (((node p).getD (0, 0)).2 : ℚ)) (fun p => p.elev) (fun p => p.pos.1) (fun _ => 0)]
+        exact ne_of_gt hpos2
+    have hx : solveNormal (normalOf ((peaks.filter T).map fun p =>
+        (⟨(((node p).getD (0, 0)).1 : ℚ), (((node p).getD (0, 0)).2 : ℚ), p.elev, p.pos.2⟩ : Obs)))
+        = some (z.2, a.2, b.2) := by
+      apply solve_exact
+      · intro o ho
+        obtain ⟨p, hp, rfl⟩ := List.mem_map.mp ho
+        exact (on_node_resid z a b p _ _ (hTmem p hp).2).2
+      · rw [det_indep_t (peaks.filter T) (fun p => (((node p).getD (0, 0)).1 : ℚ))
+          (fun p => (((node p).getD (0, 0)).2 : ℚ)) (fun p => p.elev) (fun p => p.pos.2) (fun _ => 0)]
+        exact ne_of_gt hpos2
+    rw [hy, hx]
+  -- assemble
+  have hen : Gen.fm_enough (((peaks.filter S1).map (rix z0 a0 b0)).length : ℤ) mm = true := by
+    rw [(operators 0 0 0 0 _ _).2.1, List.length_map]; exact hcount
+  unfold fastmatch
+  simp only []
+  rw [matchAll_eq peaks W z0 a0 b0 tol hd0]
+  simp only [← hS1, hen, Bool.not_true, Bool.false_eq_true, if_false, hfit1]
+  rw [matchAll_eq peaks W z a b tol hd, hmap2, hfil2, hidx2]
+  simp only [hfit2]
+
+/-- **from the exact start**: every strong node peak is selected, every other peak rejected, the true
+lattice is returned (the hypothesis on round one is discharged by `on_node`) -/
+theorem fastmatch_noise_free (peaks : List Peak) (z a b : V2) (tol mw : ℚ) (mm : ℤ)
+    (node : Peak → Option (ℤ × ℤ))
+    (hd : det2 a b ≠ 0) (htol : 0 < tol) (hmw : 0 ≤ mw)
+    (hnode : ∀ p ∈ peaks, ∀ i j, node p = some (i, j) → p.pos = calcCoord z a b ((i : ℚ), (j : ℚ)))
+    (hout : ∀ p ∈ peaks, node p = none → mw ≤ p.elev → isMatched a b tol (ix z a b p) = false)
+    (hcount : mm ≤ ((peaks.filter (selBy (fun p => Gen.fm_weight_ok p.elev mw) z a b tol)).length : ℤ))
+    (hrank : (normalOf ((peaks.filter (selBy (fun p => Gen.fm_weight_ok p.elev mw) z a b tol)).map
+      fun p => ⟨((rix z a b p).1 : ℚ), ((rix z a b p).2 : ℚ), p.elev, 0⟩)).det ≠ 0) :
+    fastmatch peaks z a b tol mw mm
+      = .valid z a b (peaks.map fun p => Gen.fm_weight_ok p.elev mw && (node p).isSome)
+          ((peaks.filter fun p => Gen.fm_weight_ok p.elev mw && (node p).isSome).map
+            fun p => (node p).getD (0, 0)) := by
+  apply fastmatch_exact_recovery peaks z a b z a b tol mw mm node hd hd htol hmw hnode hout _ hcount hrank
+  intro p hp hw hm
+  cases hn : node p with
+  | none => rw [hout p hp hn hw] at hm; exact absurd hm (by simp)
+  | some ij =>
+    obtain ⟨i, j⟩ := ij
+    rw [(on_node z a b tol htol hd p i j (hnode p hp i j hn)).2.2]
+
+/-- non-vacuity, run through the model: five strong node peaks of a 10 px square lattice, one weak node
+peak, one half-cell outlier; the start is off by (1/2, -1/2) px in the zero point and ±1/5 px in the
+vectors.  The result is the exact lattice, the strong node peaks, their true indices. -/
+example :
+    fastmatch [⟨(0, 0), 1⟩, ⟨(10, 0), 2⟩, ⟨(5, 5), 3⟩, ⟨(0, 10), 1⟩, ⟨(20, 20), 0⟩, ⟨(10, 10), 1⟩, ⟨(20, 10), 2⟩]
+      (1 / 2, -1 / 2) (10 + 1 / 5, 0) (0, 10 - 1 / 5) 3 (1 / 10) 3
+    = .valid (0, 0) (10, 0) (0, 10) [true, true, false, true, false, true, true]
+        [(0, 0), (1, 0), (0, 1), (1, 1), (2, 1)] := by
   decide +kernel
 
 end C05
